@@ -10,6 +10,9 @@ transcription (IO/Zmq.lean), tied by the correspondence run.  The serializer pai
 -/
 import BlueskyVerif.Lemmas.C33
 
+-- simp sets name generated constants that happen not to be needed for the current source
+set_option linter.unusedSimpArgs false
+
 namespace BlueskyVerif.C33
 open BlueskyVerif.Zmq
 
